@@ -69,7 +69,8 @@ class Unit:
         return text
 
 
-def weave_block(unit, block, block_target, method_prefix, hoist=None, hoist_prefix=None, self_ty=None, body_rewrite=None):
+def weave_block(unit, block, block_target, method_prefix, hoist=None, hoist_prefix=None, self_ty=None, body_rewrite=None,
+                only=None, free_generics=""):
     """weave a trait / impl block method by method.  Methods named in `hoist` are moved to free
     functions `<hoist_prefix>_<name>(self_: <self_ty>, ...)` (R5) and replaced by a delegation."""
     hoist = hoist or []
@@ -80,6 +81,10 @@ def weave_block(unit, block, block_target, method_prefix, hoist=None, hoist_pref
     last = 0
     for name, piece, s, e in methods:
         out.append(text[last:s])
+        if only is not None and name not in only:
+            # methods Verus cannot accept are not part of the unit (stated in the unit's description)
+            last = e
+            continue
         mtext = piece.text
         if name in hoist:
             sig, body = split_fn(mtext)
@@ -91,7 +96,7 @@ def weave_block(unit, block, block_target, method_prefix, hoist=None, hoist_pref
             recv = m.group(1)
             ty = ("&mut " if "mut" in recv else "&") + self_ty
             free_name = "%s_%s" % (hoist_prefix, name)
-            new_sig = sig[:m.start()] + "fn %s(self_: %s%s" % (free_name, ty, m.group(2)) + sig[m.end():]
+            new_sig = sig[:m.start()] + "fn %s%s(self_: %s%s" % (free_name, free_generics, ty, m.group(2)) + sig[m.end():]
             new_body = unit.rw.r5_self(body)
             if body_rewrite:
                 new_body = body_rewrite(new_body)
@@ -103,6 +108,11 @@ def weave_block(unit, block, block_target, method_prefix, hoist=None, hoist_pref
             args = re.findall(r"(\w+)\s*:", sig[m.end():].split(")")[0])
             attr = "#[verifier::external_body] " if (self_ty, name) in EXTERNAL_DELEGATIONS else ""
             deleg = "%s%s { %s(%s) }" % (attr, sig.strip(), free_name, ", ".join(["self"] + args))
+            # an inherent method has no trait to carry its contract: the delegation gets it from the contract file
+            dtarget = "%s::%s" % (self_ty, name)
+            dds = unit.directives(dtarget, allow_missing=True)
+            if dds:
+                deleg = weave_fn(deleg, dds, dtarget)
             out.append(deleg)
         else:
             target = "%s::%s" % (method_prefix if block_target.startswith("trait") else self_ty, name)
@@ -127,7 +137,7 @@ def weave_block(unit, block, block_target, method_prefix, hoist=None, hoist_pref
 
 
 # the one generated delegation that must not be verified (Verus quirk, DESIGN §2.2 R5)
-EXTERNAL_DELEGATIONS = {("[usize]", "get_previous")}
+EXTERNAL_DELEGATIONS = {("[usize]", "get_previous"), ("UnaryOp<T>", "apply")}
 
 
 def build_u123(repo, canary=None):
@@ -249,7 +259,50 @@ def build_u123(repo, canary=None):
     return u, u.finish()
 
 
-UNITS = {"u123": build_u123}
+def strip_attrs(text):
+    """R8: `#[derive(..)]` / doc attributes in front of a cut item are dropped (derives would need the traits
+    on the opaque stand-in types)"""
+    return re.sub(r"^\s*#\[[^\]]*\]\s*\n", "", text, flags=re.M)
+
+
+def build_u4(repo, canary=None):
+    u = Unit("u4", repo, canary)
+    u.load("u4.vrs")
+    ops = Source(repo, "src/operators.rs")
+    flat = Source(repo, "src/expression/flat.rs")
+    u.emit_text("prelude")
+    u.emit_text("type alias")   # R3 applied to `pub type VecOfUnaryFuncs<T> = SmallVec<[UnaryFuncWithIdx<T>; N]>`
+    alias, _ = ops.cut(r"^pub type VecOfUnaryFuncs<T>", "type VecOfUnaryFuncs")
+    if u.rw.r3_smallvec(alias.text).replace(" ", "") != "pubtypeVecOfUnaryFuncs<T>=Vec<UnaryFuncWithIdx<T>>;":
+        raise WeaveError("lost anchor: VecOfUnaryFuncs is no longer a SmallVec of UnaryFuncWithIdx<T>: %s" % alias.text)
+    st, _ = ops.cut(r"^pub struct UnaryOp<T>", "struct UnaryOp")
+    # R9: Verus wants the type parameter of a struct that mentions the opaque fn-pointer stand-ins declared non-positive
+    u.emit_raw("#[verifier::reject_recursive_types(T)]\n" + st.text, {"kind": "repo", "file": st.file, "line": st.line})
+    u.rw.count("R9")
+    # the impl block of UnaryOp: only the methods Verus can accept are kept (apply, remove_latest, len); `apply`
+    # is hoisted to a free function (R5: the `.iter().rev()` loop's built-in invariant fails inside a method)
+    imp, _ = ops.cut(r"^impl<T> UnaryOp<T>\s*\nwhere\s*\n\s*T: Clone,", "impl UnaryOp")
+    imp = imp.clone(strip_attrs(imp.text))
+    imp_text, free = weave_block(u, imp, "impl UnaryOp", "UnaryOp", hoist=["apply"], hoist_prefix="unaryop", self_ty="UnaryOp<T>",
+                                 only=["apply", "remove_latest", "len"], free_generics="<T: Clone>")
+    u.emit_raw(imp_text, {"kind": "repo", "file": imp.file, "line": imp.line})
+    for piece, free_name, text in free:
+        u.emit_fn(piece, free_name, text=text, woven_as=free_name)
+    ob, _ = ops.cut(r"^pub trait OperateBinary<T>", "trait OperateBinary")
+    ob_text, _ = weave_block(u, ob, "trait OperateBinary", "OperateBinary")
+    u.emit_raw(ob_text, {"kind": "repo", "file": ob.file, "line": ob.line})
+    u.emit_text("binop stub")
+    fo, _ = flat.cut(r"^    pub struct FlatOp<T: Clone>", "struct FlatOp")
+    u.emit_raw("#[verifier::reject_recursive_types(T)]\n" + strip_attrs(fo.text).lstrip(), {"kind": "repo", "file": fo.file, "line": fo.line})
+    u.rw.count("R9")
+    fimpl, _ = flat.cut(r"^    impl<T: Clone> OperateBinary<T> for FlatOp<T>", "impl OperateBinary for FlatOp")
+    ftext, _ = weave_block(u, fimpl, "impl FlatOp", "OperateBinary", self_ty="FlatOp<T>")
+    u.emit_raw(ftext, {"kind": "repo", "file": fimpl.file, "line": fimpl.line})
+    u.emit_text("epilogue")
+    return u, u.finish()
+
+
+UNITS = {"u123": build_u123, "u4": build_u4}
 
 if __name__ == "__main__":
     import argparse
